@@ -10,7 +10,7 @@ assertion passes (a correct program is not refused), and a mirrored false assert
 import os
 import re
 
-from .. import common, enumer, langrun, nanoref as nr
+from .. import common, enumer, langrun, nanoref as nr, xfam
 from . import langcommon as lc
 
 LAYERS = ["effect_order", "layer_F", "layer_D", "layer_S", "layer_E"]
@@ -171,7 +171,48 @@ def _task(bi):
 HM_KEYS = ["pear", "date", "cherry", "banana", "kiwi", "fig"]      # three pairs that share a bucket in a 16-slot FNV-1a table
 
 
+# a probe cluster: the first four share their home slot in the 16-slot open-addressing tables of the evaluator and of the
+# generated C (64-bit FNV-1a & 15 == 5) AND their bucket in the VM's chained table (32-bit FNV-1a % 16 == 15); the last two
+# have the next two home slots, so they sit right behind the cluster.  Removal order inside such a cluster is what
+# tombstone handling has to get right.
+CL_KEYS = ["aab", "aar", "aen", "aol", "aag", "aed"]
+
+
+def _fnv(s, bits):
+    h, p, m = (1469598103934665603, 1099511628211, (1 << 64) - 1) if bits == 64 else (2166136261, 16777619, (1 << 32) - 1)
+    for c in s.encode():
+        h = ((h ^ c) * p) & m
+    return h
+
+
+assert [_fnv(k, 64) & 15 for k in CL_KEYS] == [5, 5, 5, 5, 6, 7] and len(set(_fnv(k, 32) % 16 for k in CL_KEYS[:4])) == 1
+
+
+def state_changing(keys, maxlen):
+    """every history of length <= maxlen in which each step changes the map: put of an absent key or removal of a present one"""
+    out = []
+
+    def go(seq, present):
+        if seq:
+            out.append(tuple(seq))
+        if len(seq) == maxlen:
+            return
+        for k in keys:
+            if k in present:
+                go(seq + [("rm", k)], present - {k})
+            else:
+                go(seq + [("put", k)], present | {k})
+    go([], frozenset())
+    return out
+
+
 def hm_sequences(tier):
+    cl = state_changing(CL_KEYS[:3], 5) + state_changing(CL_KEYS[:3] + CL_KEYS[4:5], 4) if tier == "quick" else \
+        state_changing(CL_KEYS[:4], 6) + state_changing([CL_KEYS[0], CL_KEYS[1], CL_KEYS[2], CL_KEYS[4], CL_KEYS[5]], 5)
+    return _hm_sequences_pairs(tier) + sorted(set(cl), key=lambda q: (len(q), q))
+
+
+def _hm_sequences_pairs(tier):
     ops = [("put", k) for k in HM_KEYS] + [("rm", k) for k in HM_KEYS]
     seqs = [(o,) for o in ops] + [(a, b) for a in ops for b in ops]
     if tier == "quick":
@@ -199,7 +240,7 @@ def hm_function(name, seq):
             body.append('    (map_remove hm "%s")' % k)
             model.pop(k, None)
     exp = []
-    for k in HM_KEYS:
+    for k in (HM_KEYS if seq[0][1] in HM_KEYS else CL_KEYS):
         body.append('    (println (map_has hm "%s"))' % k)
         exp.append("true" if k in model else "false")
         body.append('    if (map_has hm "%s") { (println (map_get hm "%s")) } else { (println -1) }' % (k, k))
@@ -341,6 +382,7 @@ def run(tier):
             rep.violation("c03:%s:%s" % (cid, pb[:30]), {"program.nano": src(), "expected.txt": exp, "evaluator.txt": text, "native.txt": nat or "(not run)"},
                           "%s [%s]: %s" % (cid, case["layer"], pb), "bin/nanoc_c program.nano -o p --verbose   # text between 'Testing <f>... ' and PASSED/FAILED")
     hashmap_family(rep, tier, lang)
+    xfam.judge(rep, "C03", lang, tier)      # text-template families: features outside the typed AST enumerator
     rep.count("states", judged)
     rep.count("traces_validated_against_impl", judged)
     rep.coverage.update({"cases": len(cases), "with_true_assertions": asserted, "with_mirrored_false_assertion": mirrored,
